@@ -418,10 +418,12 @@ def world_queries(rng, case, part, count=3):
         j = rng.randrange(1, len(fin))
         upper = {k for l in fin[j:] for k in l}
         groups = {}
+        bycount = rng.random() < 0.4        # lexicographic flavour: the same NUMBER of falsified conditionals per upper layer, any sets
         for w, fs in prof.items():
             if fs & upper:
-                groups.setdefault(frozenset(fs & upper), []).append(w)
-        cands = [g for g in groups.values() if len(g) >= 2]
+                key = tuple(len(fs & set(l)) for l in fin[j:]) if bycount else frozenset(fs & upper)
+                groups.setdefault(key, []).append(w)
+        cands = [g for g in groups.values() if len(g) >= 2 and (not bycount or len({frozenset(prof[w] & upper) for w in g}) >= 2)]
         if not cands:
             continue
         g = rng.choice(cands)
